@@ -15,8 +15,6 @@ Out-of-domain integers are recorded, not judged.
 """
 import itertools
 import os
-import sys
-import traceback
 from collections import Counter
 
 from vlib import build, core
